@@ -187,9 +187,7 @@ def stop_ordering(rep, rule, m):
             if who == "cmb_process_current()":
                 r5.ok()            # the running process is in no waiting list
                 continue
-            di = inv.stmt_index_containing(f, d)
-            before = [c for c in ca_ if cx.canon(kids(c)[1]) == who and
-                      (inv.stmt_index_containing(f, c) or 0) < (di or 0)]
+            before = [c for c in ca_ if cx.canon(kids(c)[1]) == who and inv.executes_before(f, c, d)]
             if not before:
                 rep.finding(r5, f.name, "drop-before-unwind", "%s drops the holdings of %s before removing it from its "
                             "waiting lists: the freed units can be granted to the process that is being ended and are "
